@@ -238,13 +238,13 @@ Qed.
            }
          }
        } elif none @x {
-         edge y -> y
+         print "e"
        } else {
          node n
        }
        print 1
      }
-     (b) @z {
+     (b) @_z {
        scan "t" { "b" { if #true { let w = 1 } } }
      }
    is accepted; its ten statements have the locations below (preorder), increasing and pairwise different *)
@@ -252,7 +252,7 @@ Definition pex_ext : Parser.ext :=
   {| Parser.x_alpha := fun _ => false; Parser.x_alnum := fun _ => false; Parser.x_ws := fun _ => false;
      Parser.x_query := fun _ _ => Some (Parser.QOk 1 (Some 1)); Parser.x_merged := fun _ => Some true;
      Parser.x_regex := fun _ => Some true |}.
-Definition pex_text : str := [40; 97; 41; 32; 64; 120; 32; 123; 10; 32; 32; 105; 102; 32; 115; 111; 109; 101; 32; 64; 120; 32; 123; 10; 32; 32; 32; 32; 102; 111; 114; 32; 121; 32; 105; 110; 32; 91; 49; 93; 32; 123; 10; 32; 32; 32; 32; 32; 32; 115; 99; 97; 110; 32; 34; 115; 34; 32; 123; 10; 32; 32; 32; 32; 32; 32; 32; 32; 34; 97; 34; 32; 123; 32; 112; 114; 105; 110; 116; 32; 121; 32; 125; 10; 32; 32; 32; 32; 32; 32; 125; 10; 32; 32; 32; 32; 125; 10; 32; 32; 125; 32; 101; 108; 105; 102; 32; 110; 111; 110; 101; 32; 64; 120; 32; 123; 10; 32; 32; 32; 32; 101; 100; 103; 101; 32; 121; 32; 45; 62; 32; 121; 10; 32; 32; 125; 32; 101; 108; 115; 101; 32; 123; 10; 32; 32; 32; 32; 110; 111; 100; 101; 32; 110; 10; 32; 32; 125; 10; 32; 32; 112; 114; 105; 110; 116; 32; 49; 10; 125; 10; 40; 98; 41; 32; 64; 122; 32; 123; 10; 32; 32; 115; 99; 97; 110; 32; 34; 116; 34; 32; 123; 32; 34; 98; 34; 32; 123; 32; 105; 102; 32; 35; 116; 114; 117; 101; 32; 123; 32; 108; 101; 116; 32; 119; 32; 61; 32; 49; 32; 125; 32; 125; 32; 125; 10; 125; 10].
+Definition pex_text : str := [40; 97; 41; 32; 64; 120; 32; 123; 10; 32; 32; 105; 102; 32; 115; 111; 109; 101; 32; 64; 120; 32; 123; 10; 32; 32; 32; 32; 102; 111; 114; 32; 121; 32; 105; 110; 32; 91; 49; 93; 32; 123; 10; 32; 32; 32; 32; 32; 32; 115; 99; 97; 110; 32; 34; 115; 34; 32; 123; 10; 32; 32; 32; 32; 32; 32; 32; 32; 34; 97; 34; 32; 123; 32; 112; 114; 105; 110; 116; 32; 121; 32; 125; 10; 32; 32; 32; 32; 32; 32; 125; 10; 32; 32; 32; 32; 125; 10; 32; 32; 125; 32; 101; 108; 105; 102; 32; 110; 111; 110; 101; 32; 64; 120; 32; 123; 10; 32; 32; 32; 32; 112; 114; 105; 110; 116; 32; 34; 101; 34; 10; 32; 32; 125; 32; 101; 108; 115; 101; 32; 123; 10; 32; 32; 32; 32; 110; 111; 100; 101; 32; 110; 10; 32; 32; 125; 10; 32; 32; 112; 114; 105; 110; 116; 32; 49; 10; 125; 10; 40; 98; 41; 32; 64; 95; 122; 32; 123; 10; 32; 32; 115; 99; 97; 110; 32; 34; 116; 34; 32; 123; 32; 34; 98; 34; 32; 123; 32; 105; 102; 32; 35; 116; 114; 117; 101; 32; 123; 32; 108; 101; 116; 32; 119; 32; 61; 32; 49; 32; 125; 32; 125; 32; 125; 10; 125; 10].
 Example parsed_locs_unique_nonvacuous :
   exists fl, Parser.parse pex_ext (Parser.fuel_of pex_text) pex_text = Parser.POk fl [[97]; [98]] /\
     map stmt_loc (file_stmts fl) = [(1, 2); (2, 4); (3, 6); (4, 14); (8, 4); (10, 4); (12, 2); (15, 2); (15, 19); (15, 30)] /\
@@ -298,4 +298,86 @@ Proof.
   destruct (Parser.parse pex_ext (Parser.fuel_of pex_text) pex_text) as [fl pats| | | |] eqn:E; try (vm_compute in E; discriminate).
   exists fl. assert (H : Parser.POk fl pats = Parser.parse pex_ext (Parser.fuel_of pex_text) pex_text) by (symmetry; exact E).
   vm_compute in H. injection H as -> ->. vm_compute. repeat split.
+Qed.
+
+(* ================================================================================================================
+   LOADED FILES.  The file that is EXECUTED is the parsed file after File::check.  Model/Loader.v `load X q fuel text` is the
+   parser model followed by the checker model (q = the query tables tree-sitter provides; Props/C05render.v load_spec).  The
+   checker rewrites capture resolutions only (check_resolves, Props/C06.v), so statement locations and printed identifiers
+   are those of the parsed file (Proofs/LoadedFile.v): the facts above hold of the loaded file, and the end-to-end theorems
+   hold for every text the model's loader accepts - no hypothesis about the file is left. *)
+From TSG Require Model.Loader Proofs.LoadedFile.
+
+Theorem loaded_locs_unique : forall X q fuel text fl pats,
+  Loader.load X q fuel text = Loader.LdOk fl pats -> locs_unique fl = true.
+Proof. exact LoadedFile.loaded_locs_unique_lemma. Qed.
+
+Theorem loaded_locs_increasing : forall X q fuel text fl pats,
+  Loader.load X q fuel text = Loader.LdOk fl pats ->
+  forall i j a b, (i < j)%nat ->
+    nth_error (map stmt_loc (file_stmts fl)) i = Some a -> nth_error (map stmt_loc (file_stmts fl)) j = Some b ->
+    fst a < fst b \/ (fst a = fst b /\ snd a < snd b).
+Proof. exact LoadedFile.loaded_locs_increasing_lemma. Qed.
+
+Theorem loaded_stmt_text_single_line : forall X q fuel text fl pats E s,
+  Loader.load X q fuel text = Loader.LdOk fl pats -> In s (file_stmts fl) ->
+  stmt_names_cleanb s = true /\
+  Forall (fun c => 32 <= c) (display_stmt E s) /\ ~ In 10 (display_stmt E s) /\ ~ In 13 (display_stmt E s).
+Proof.
+  intros X q fuel text fl pats E s Hl Hin. pose proof (LoadedFile.loaded_names_clean_lemma _ _ _ _ _ _ Hl) as H.
+  rewrite forallb_forall in H. pose proof (H s Hin) as Hc.
+  split; [exact Hc|]. split; [exact (clean_display_stmt E s (stmt_names_cleanb_spec s Hc))|exact (display_stmt_single_line_checked_partial E s Hc)].
+Qed.
+
+Theorem strict_error_rendering_cites_disp_loaded : forall {rx : Type} X q pfuel text pats t fl cfg glob (regexes : list rx) find call fuel sts ms s p e
+    E cause_text node_kind node_pos other_msg w tsg_path tsg src_path src,
+  call_errors_base call ->
+  Loader.load X q pfuel text = Loader.LdOk fl pats -> incl sts (f_stanzas fl) ->
+  exec_file t fl cfg glob regexes find call fuel sts ms s p = Err e ->
+  (exists l, e = ECancelled l) \/
+  exists st m, In (st, m) (blocks sts ms) /\
+    match nodes_for_capture m (st_full_stanza_idx st) with
+    | n :: _ =>
+        exists s', stmt_in st s' /\ stmt_at fl (stmt_loc s') = Some s' /\
+          let out := render_pretty w tsg_path tsg src_path src (chain_of_error_disp E fl cause_text node_kind node_pos other_msg e) in
+          cites3 tsg_path src_path out (stmt_loc s') (st_start st) (node_pos n) /\
+          contains (display_stmt E s') out = true
+    | [] => False
+    end.
+Proof.
+  intros rx X q pfuel text pats t fl cfg glob regexes find call fuel sts ms s p e E cause_text node_kind node_pos other_msg w
+    tsg_path tsg src_path src Hc Hp. apply strict_error_rendering_cites_disp; [exact Hc|exact (loaded_locs_unique _ _ _ _ _ _ Hp)].
+Qed.
+
+Theorem lazy_error_rendering_cites_disp_loaded : forall {rx : Type} X q pfuel text pats t fl cfg supplied budget (regexes : list rx) find call fuel ms g0 e
+    E cause_text node_kind node_pos other_msg w tsg_path tsg src_path src,
+  call_errors_base call ->
+  Loader.load X q pfuel text = Loader.LdOk fl pats ->
+  run_lazy t fl cfg supplied budget regexes find call fuel ms g0 = Err e ->
+  check_globals (f_globals fl) (globals_nested supplied) = Err e \/
+  (exists l, e = ECancelled l) \/
+  exists cs e0, e = EInContext (CtxStmts cs) e0 /\ (length cs = 1 \/ length cs = 2)%nat /\
+    Forall (fun c => valid_ctx fl ms c /\
+              let out := render_pretty w tsg_path tsg src_path src (chain_of_error_disp E fl cause_text node_kind node_pos other_msg e) in
+              cites3 tsg_path src_path out (sc_stmt c) (sc_stanza c) (node_pos (sc_node c)) /\
+              exists s', stmt_at fl (sc_stmt c) = Some s' /\ (exists st, In st (f_stanzas fl) /\ stmt_in st s') /\
+                         contains (display_stmt E s') out = true) cs.
+Proof.
+  intros rx X q pfuel text pats t fl cfg supplied budget regexes find call fuel ms g0 e E cause_text node_kind node_pos other_msg w
+    tsg_path tsg src_path src Hc Hp. apply lazy_error_rendering_cites_disp; [exact Hc|exact (loaded_locs_unique _ _ _ _ _ _ Hp)].
+Qed.
+
+(* non-vacuity: the text of parsed_locs_unique_nonvacuous is accepted by the loader (capture @x resolved against the
+   query tables below); same ten locations *)
+Definition pex_q : Checker.query_tables :=
+  {| Checker.qt_stanza_names := [[[120]; Checker.FULL_MATCH]; [[95;122]; Checker.FULL_MATCH]];
+     Checker.qt_file_names := [[120]; Checker.FULL_MATCH; [95;122]];
+     Checker.qt_file_quants := [[QOpt; QOne; QZero]; [QZero; QOne; QOne]]; Checker.qt_nullable := [false; false] |}.
+Example loaded_locs_unique_nonvacuous :
+  exists fl, Loader.load pex_ext pex_q (Parser.fuel_of pex_text) pex_text = Loader.LdOk fl [[97]; [98]] /\
+    map stmt_loc (file_stmts fl) = [(1, 2); (2, 4); (3, 6); (4, 14); (8, 4); (10, 4); (12, 2); (15, 2); (15, 19); (15, 30)].
+Proof.
+  destruct (Loader.load pex_ext pex_q (Parser.fuel_of pex_text) pex_text) as [fl pats| | | |] eqn:E; try (vm_compute in E; discriminate).
+  exists fl. assert (H : Loader.LdOk fl pats = Loader.load pex_ext pex_q (Parser.fuel_of pex_text) pex_text) by (symmetry; exact E).
+  vm_compute in H. injection H as -> ->. repeat split.
 Qed.
